@@ -54,12 +54,6 @@ pub fn run(ctx: &Ctx) -> Outcome {
     let q = ctx.quick();
     let specs = vec![
         Spec {
-            name: "wide",
-            roots: if q { vec![("L2", false)] } else { vec![("L2", false), ("L2", true)] },
-            alphabet: wide(),
-            depth: if q { 3 } else { 4 },
-        },
-        Spec {
             name: "refs-and-rebase",
             roots: if q { vec![("L2", false)] } else { vec![("L2", false), ("L2", true)] },
             alphabet: refs(),
@@ -70,6 +64,12 @@ pub fn run(ctx: &Ctx) -> Outcome {
             roots: if q { vec![("L1", true)] } else { vec![("L1", true), ("L2", false)] },
             alphabet: narrow(),
             depth: if q { 4 } else { 6 },
+        },
+        Spec {
+            name: "wide",
+            roots: if q { vec![("L2", false)] } else { vec![("L2", false), ("L2", true)] },
+            alphabet: wide(),
+            depth: if q { 3 } else { 4 },
         },
     ];
     run_check(ctx, "C06", Oracles { snap: true, structure: true, ..Default::default() }, specs, &[
